@@ -14,11 +14,11 @@ Minors == IF Size = "small" THEN {S("0"), S("2")}
 Pres   == IF Size = "small"
           THEN {<<>>, S("-0"), S("-1"), S("-10"), S("-a"), S("-A"), S("-a.0"), S("-a.a"), S("-1.a"), S("--"), S("-01"), S("-a..b"),
                 \* a hyphen is part of an identifier, not a separator: rc-9 > rc-10 > rc-2a as ASCII strings
-                S("-rc-9"), S("-rc-10"), S("-rc-2a")}
+                S("-rc-9"), S("-rc-10"), S("-rc-2a"), S("-9"), S("-19"), S("-rc.9")}
           ELSE {<<>>, S("-0"), S("-1"), S("-2"), S("-10"), S("-a"), S("-A"), S("-a.0"), S("-a.1"), S("-a.a"), S("-1.a"),
                 S("-a-b"), S("--"), S("-01"), S("-a..b"), S("-0a"), S("-1234567890123456789012345"),
                 S("-1234567890123456789012346"), S("-a.1234567890123456789012345"), S("-rc.1"), S("-rc.10"), S("-rc.2"),
-                S("-rc-9"), S("-rc-10"), S("-rc-2a"), S("-x.rc-9"), S("-x.rc-10"), S("-a-1.2"), S("-a-1.10")}
+                S("-rc-9"), S("-rc-10"), S("-rc-2a"), S("-x.rc-9"), S("-x.rc-10"), S("-a-1.2"), S("-a-1.10"), S("-9"), S("-19"), S("-rc.9"), S("-99999999999999999999"), S("-100000000000000000000")}
 Builds == IF Size = "small" THEN {<<>>, S("+b"), S("+incompatible")}
           ELSE {<<>>, S("+b"), S("+incompatible"), S("+"), S("+01.-")}
 
